@@ -55,39 +55,57 @@ Definition unique_fields (ks : list cons) : list name :=
   flat_map (fun k => match k with CUnique f _ => [f] | _ => [] end) ks.
 Definition setidx_fields (ks : list cons) : list name :=
   flat_map (fun k => match k with CSetIdx f => [f] | _ => [] end) ks.
-(* back-reference set names that foreign-key indexes anywhere in the schema keep on store t *)
-Definition backrefs_on (sch : schema) (t : name) : list name :=
-  flat_map (fun d => flat_map (fun k => match k with CFkIndex _ t' b _ => if str_eqb t' t then [b] else [] | _ => [] end) (sd_cons d)) sch.
+(* back-reference set names that foreign-key indexes anywhere in the schema keep on (the entities of) root store r: the
+   target of the index is r itself or one of its child stores *)
+Definition backrefs_on (sch : schema) (r : name) : list name :=
+  flat_map (fun d => flat_map (fun k => match k with CFkIndex _ t' b _ => if str_eqb (root_of sch t') r then [b] else [] | _ => [] end) (sd_cons d)) sch.
+Definition declaredb (sch : schema) (s : name) : bool :=
+  match find_store sch s with Some _ => true | None => false end.
 Definition link_locals (d : sdef) : list name := map (fun l : name * name * name => fst (fst l)) (sd_links d).
 
 (* the stores of the family of root r: r itself and its child stores *)
 Definition family (sch : schema) (r : name) : list sdef :=
   filter (fun d => str_eqb (sd_name d) r || match sd_parent d with Some p => str_eqb p r | None => false end) sch.
 
-Definition wf_child (sch : schema) (d : sdef) : bool :=
-  match sd_parent d with
-  | None => true
-  | Some p =>
-      is_rootb sch p &&
-      forallb (fun k => match k with CUnique f _ => declares_field d f | CSystem => true | _ => false end) (sd_cons d) &&
-      match sd_links d with [] => true | _ => false end
-  end.
+(* a link collection (of a root store or of a child store) is declared on both sides; the other side may be a root store
+   or a child store *)
+Definition wf_link (sch : schema) (d : sdef) (l : name * name * name) : bool :=
+  match l with (lf, os, of_) => existsb (name3_eqb (of_, sd_name d, lf)) (links_of sch os) end.
 
+(* a constraint of a root store or of a child store.  Foreign-key index / constraint: the target - a root store or a child
+   store - is declared and guarded, the field is not the isSystem flag; on a child store the field (also of a unique index) is
+   one of its own fields.  Set index: over a declared string list of the root store. *)
 Definition wf_cons (sch : schema) (d : sdef) (k : cons) : bool :=
   match k with
-  | CSetIdx f => ss_mem f (sd_sets d)
+  | CSetIdx f =>     (* over a string list of the root store (the machine keeps string lists at the root level) *)
+      match sd_parent d with
+      | None => ss_mem f (sd_sets d)
+      | Some p => match find_store sch p with Some pd => ss_mem f (sd_sets pd) | None => false end
+      end
+  | CUnique f _ => match sd_parent d with None => true | Some _ => declares_field d f end
   | CFkIndex f t b _ =>
-      is_rootb sch t && negb (str_eqb f isSystemF) &&
+      declaredb sch t && negb (str_eqb f isSystemF) &&
+      (match sd_parent d with None => true | Some _ => declares_field d f end) &&
       existsb (fun k' => match k' with
                          | CFkRestrict b' => str_eqb b' b
                          | CFkCascade rs f' _ => str_eqb rs (sd_name d) && str_eqb f' f
                          | _ => false end) (cons_of sch t)
   | CFkCons f t _ =>
-      is_rootb sch t && negb (str_eqb f isSystemF) &&
+      declaredb sch t && negb (str_eqb f isSystemF) &&
+      (match sd_parent d with None => true | Some _ => declares_field d f end) &&
       existsb (fun k' => match k' with
                          | CFkCascade rs f' _ => str_eqb rs (sd_name d) && str_eqb f' f
                          | _ => false end) (cons_of sch t)
   | _ => true
+  end.
+
+Definition wf_child (sch : schema) (d : sdef) : bool :=
+  match sd_parent d with
+  | None => true
+  | Some p =>
+      is_rootb sch p &&
+      forallb (wf_cons sch d) (sd_cons d) &&
+      forallb (wf_link sch d) (sd_links d)
   end.
 
 Definition wf_root (sch : schema) (d : sdef) : bool :=
@@ -95,12 +113,12 @@ Definition wf_root (sch : schema) (d : sdef) : bool :=
   | Some _ => true
   | None =>
       nt_nodupb (flat_map (fun c => unique_fields (sd_cons c)) (family sch (sd_name d))) &&
-      nt_nodupb (setidx_fields (sd_cons d)) &&
-      nt_nodupb (sd_sets d ++ backrefs_on sch (sd_name d) ++ link_locals d) &&
+      nt_nodupb (flat_map (fun c => setidx_fields (sd_cons c)) (family sch (sd_name d))) &&
+      (* the string sets inside an entity of this root store: declared string lists, back-reference sets kept on it, and the
+         link sets of the root store AND of its child stores (the machine keeps them all in the root entity) *)
+      nt_nodupb (sd_sets d ++ backrefs_on sch (sd_name d) ++ flat_map link_locals (family sch (sd_name d))) &&
       forallb (wf_cons sch d) (sd_cons d) &&
-      forallb (fun l : name * name * name =>
-                 match l with (lf, os, of_) => is_rootb sch os && existsb (name3_eqb (of_, sd_name d, lf)) (links_of sch os) end)
-              (sd_links d)
+      forallb (wf_link sch d) (sd_links d)
   end.
 
 Definition nt_wf_parents (sch : schema) : bool :=
